@@ -189,7 +189,7 @@ func assembled(v variant, nBeforeMax, nw int) {
 		}
 	}
 	go rt.Run(ctx) //nolint:errcheck
-	up := false // the runtime has settled at least once since start (its watches are established)
+	up := false    // the runtime has settled at least once since start (its watches are established)
 	n := verif.Choose("writes", nw+1)
 	for i := 0; i < n; i++ {
 		if verif.Choose("settle", 2) == 1 {
